@@ -241,6 +241,13 @@ impl Monitor for C17 {
             cluster_rev.reverse();
             let mut ref_rev: Vec<Merge> = (&linkage).into_iter().rev().map(conv).collect();
             ref_rev.reverse();
+            // the borrowed iterator through adaptors that use nth / size_hint
+            let bound = 4 * n + 8; // an adaptor that never ends must not eat the memory
+            let skipped: Vec<Merge> = linkage.cluster().skip(1).take(bound).map(conv).collect();
+            let stepped: Vec<Merge> = linkage.cluster().step_by(2).take(bound).map(conv).collect();
+            let mut it_nth = linkage.cluster();
+            let nth_twice: Vec<Option<Merge>> = vec![it_nth.nth(0).map(conv), it_nth.nth(0).map(conv), it_nth.next().map(conv)];
+            let counted = (linkage.cluster().take(bound).count(), linkage.cluster().size_hint(), linkage.iter().skip(1).take(bound).count());
             // the owned iterator read from both ends in a seeded pattern: the items taken from the front
             // followed by the reversed items taken from the back are the merges in order
             let mut it = linkage.into_cluster();
@@ -267,9 +274,9 @@ impl Monitor for C17 {
             }
             back.reverse();
             front.extend(back);
-            (via_cluster, via_iter, via_ref, indicies, front, cluster_rev, ref_rev)
+            (via_cluster, via_iter, via_ref, indicies, front, cluster_rev, ref_rev, skipped, stepped, nth_twice, counted)
         });
-        let (merges, via_iter, via_ref, indicies, via_into, cluster_rev, ref_rev) = match res {
+        let (merges, via_iter, via_ref, indicies, via_into, cluster_rev, ref_rev, skipped, stepped, nth_twice, counted) = match res {
             Ok(x) => x,
             Err(p) => {
                 out.violate("C17", &format!("panic/{}", METHODS[method]), format!("n={n}: {} at {}", p.message, p.location));
@@ -282,6 +289,16 @@ impl Monitor for C17 {
             format!("into_cluster() read with end pattern {back_pattern:#x} gives {via_into:?}, cluster() gives {merges:?}")
         });
         out.check(cluster_rev == merges && ref_rev == merges, "C17", "accessor_twins/reversed", || "cluster().rev() or (&Linkage).into_iter().rev() is not the reverse of cluster()".to_string());
+        {
+            let exp_skip: Vec<Merge> = merges.iter().skip(1).cloned().collect();
+            let exp_step: Vec<Merge> = merges.iter().step_by(2).cloned().collect();
+            let exp_nth: Vec<Option<Merge>> = vec![merges.first().cloned(), merges.get(1).cloned(), merges.get(2).cloned()];
+            let nm = merges.len();
+            let ok_count = counted.0 == nm && counted.1 .0 <= nm && counted.1 .1.map_or(true, |h| h >= nm) && counted.2 == nm.saturating_sub(1);
+            out.check(skipped == exp_skip && stepped == exp_step && nth_twice == exp_nth && ok_count, "C17", "accessor_twins/iterator_adaptors", || {
+                format!("cluster() through skip(1) / step_by(2) / nth(0) twice / count / size_hint disagrees with plain iteration: skip {} of {}, step {} of {}, nth {:?}, counts {:?}", skipped.len(), exp_skip.len(), stepped.len(), exp_step.len(), nth_twice.iter().map(Option::is_some).collect::<Vec<_>>(), counted)
+            });
+        }
         bump(&mut out.events, "Linkage::cluster");
         bump(&mut out.events, "Linkage::indicies");
 
